@@ -96,6 +96,7 @@ def main(prop, tier, seed):
     if prop == 'C10':
         from props import errpath
         errpath.safe(errpath.add_finders, rep, 'C10.errpath')
+        errpath.safe(errpath.add_shallow, rep, 'C10.errpath')
         # the item getters of the explanation path: every subscription of the pith is defined (a Sequence index in range) - an undefined one
         # is not "indexing of a re-iterable collection": on a defaultdict-like mapping it INSERTS the invented key
         errpath.safe(errpath.add_enumerators, rep, 'C10.errpath')
